@@ -23,6 +23,7 @@ def main(argv=None):
     s.add_argument("what", choices=["determinism", "sensitivity"])
     s.add_argument("--props", default="C05,C06,C12")
     s.add_argument("--units", type=int, default=200)
+    s.add_argument("--only", default=None)
     args = ap.parse_args(argv)
 
     from sim import env, runner
